@@ -1325,6 +1325,11 @@ idiv_t<nbits, BlockType, NumberType> idiv(const integer<nbits, BlockType, Number
 		throw integer_divide_by_zero{};
 #else
 		std::cerr << "integer_divide_by_zero\n";
+		// leave the operand unchanged, like the single-block fast path of operator/= and operator%=
+		idiv_t<nbits, BlockType, NumberType> unchanged;
+		unchanged.quot = _a;
+		unchanged.rem = _a;
+		return unchanged;
 #endif // INTEGER_THROW_ARITHMETIC_EXCEPTION
 	}
 
